@@ -111,7 +111,10 @@ func RunWorker(h Hooks, cfg WorkerConfig) *WorkerResult {
 		mc := NewModelCache(sc.Bytes)
 		sr := AnalyseScript(mc)
 		if mc.ModelPanic != "" {
-			res.Inconclusive = append(res.Inconclusive, fmt.Sprintf("script %d: library panics inside the model: %s", si, mc.ModelPanic))
+			res.Inconclusive = append(res.Inconclusive, fmt.Sprintf("script %d: library fails inside the model: %s", si, mc.ModelPanic))
+			if mc.ModelHung {
+				res.Hung = true
+			}
 			continue
 		}
 		for k, v := range sr.Probes {
